@@ -258,7 +258,276 @@ def parts(tier):
     return out
 
 
-CHECKS = [dict(name='listener', fn=h, parts=parts, budget={'quick': 180, 'thorough': 900}, per_path_s=20)]
+# ---- the bundled Redis backends' retry loops, driven by a fake of the client library -----------------------------------------
+class EndOfPlan(BaseException):
+    """the fake broker has nothing more to deliver and the listener is blocked in listen() on a subscribed connection"""
+
+
+class Spin(BaseException):
+    """listen() was called far more often than the plan can explain"""
+
+
+R_EVENTS = ['msg', 'other-channel', 'other-type', 'no-data', 'drop', 'crash']
+
+
+def fake_redis(asyncio_, st):
+    """redis-py as the managers use it (written from redis-py 4/5: from_url() connects lazily; subscribe() and publish() raise
+    ConnectionError while the server is unreachable; listen() runs `while self.subscribed`, so it returns at once on a
+    connection that never subscribed; subscribe confirmations are dropped under ignore_subscribe_messages=True)."""
+    class RedisError(Exception):
+        pass
+
+    class ConnectionError(RedisError):
+        pass
+
+    def emit_msg(name):
+        return pickle.dumps({'method': 'emit', 'event': name, 'data': 1, 'namespace': '/', 'room': None, 'skip_sid': None,
+                             'callback': None, 'host_id': 'another-host'})
+
+    class PubSub:
+        def __init__(self):
+            self.channels = set()
+            self.broken = False
+            st['pubsubs'] += 1
+
+        def _subscribe(self, ch):
+            st['subscribes'] += 1
+            if st['down'] > 0:
+                st['down'] -= 1
+                raise ConnectionError('cannot connect')
+            self.broken = False
+            self.channels.add(ch)
+
+        def _step(self):
+            """one blocking read: a message dict, None (nothing for the caller) or an exception"""
+            if self.broken:
+                raise ConnectionError('connection lost')
+            if st['pos'] >= len(st['plan']):
+                raise EndOfPlan()
+            ev, f = st['plan'][st['pos']]
+            st['pos'] += 1
+            ch = next(iter(self.channels)).encode()
+            if ev == 'msg':
+                name = 'sentinel-%d' % st['pos']
+                st['expect'].append(name)
+                return {'type': 'message', 'pattern': None, 'channel': ch, 'data': emit_msg(name)}
+            if ev == 'other-channel':
+                return {'type': 'message', 'pattern': None, 'channel': b'somebody-elses', 'data': emit_msg('intruder')}
+            if ev == 'other-type':
+                return {'type': 'pmessage', 'pattern': b'*', 'channel': ch, 'data': emit_msg('intruder')}
+            if ev == 'no-data':
+                return {'type': 'message', 'pattern': None, 'channel': ch}
+            if ev == 'drop':
+                self.broken = True
+                st['down'] = f
+                st['expect_sleeps'] += [min(2 ** i, 60) for i in range(f + 1)]
+                raise ConnectionError('connection lost')
+            raise RuntimeError('the client library raised something that is not a RedisError')
+
+        def _enter(self):
+            st['listens'] += 1
+            if st['listens'] > 4 * len(st['plan']) + 8 + sum(f for _, f in st['plan']):
+                raise Spin()
+
+    if asyncio_:
+        class APubSub(PubSub):
+            async def subscribe(self, ch):
+                self._subscribe(ch)
+
+            async def unsubscribe(self, ch):
+                self.channels.discard(ch)
+
+            async def listen(self):
+                self._enter()
+                while self.channels:
+                    await miniloop.sleep(0)
+                    m = self._step()
+                    if m is not None:
+                        yield m
+
+        class Redis:
+            @classmethod
+            def from_url(cls, url, **kw):
+                st['connects'] += 1
+                return cls()
+
+            def pubsub(self, ignore_subscribe_messages=False):
+                return APubSub()
+
+            async def publish(self, ch, data):
+                st['publish_attempts'] += 1
+                if st['publish_down'] > 0:
+                    st['publish_down'] -= 1
+                    raise ConnectionError('cannot publish')
+                st['published'].append((ch, data))
+                return 1
+    else:
+        class SPubSub(PubSub):
+            def subscribe(self, ch):
+                self._subscribe(ch)
+
+            def unsubscribe(self, ch):
+                self.channels.discard(ch)
+
+            def listen(self):
+                self._enter()
+                while self.channels:
+                    m = self._step()
+                    if m is not None:
+                        yield m
+
+        class Redis:
+            @classmethod
+            def from_url(cls, url, **kw):
+                st['connects'] += 1
+                return cls()
+
+            def pubsub(self, ignore_subscribe_messages=False):
+                return SPubSub()
+
+            def publish(self, ch, data):
+                st['publish_attempts'] += 1
+                if st['publish_down'] > 0:
+                    st['publish_down'] -= 1
+                    raise ConnectionError('cannot publish')
+                st['published'].append((ch, data))
+                return 1
+    import types
+    ex = types.SimpleNamespace(RedisError=RedisError, ConnectionError=ConnectionError)
+    return types.SimpleNamespace(Redis=Redis, exceptions=ex, RedisError=RedisError)
+
+
+def redis_world(asyncio_, st):
+    import types
+    import socketio.redis_manager
+    import socketio.async_redis_manager
+    fake = fake_redis(asyncio_, st)
+
+    def rec(s):
+        st['sleeps'].append(s)
+    if asyncio_:
+        mod = socketio.async_redis_manager
+        mod.aioredis = fake
+        mod.RedisError = fake.RedisError
+
+        async def asleep(s=0):
+            rec(s)
+            await miniloop.sleep(0)
+        mod.asyncio = types.SimpleNamespace(sleep=asleep)
+        m = mod.AsyncRedisManager('redis://broker')
+    else:
+        mod = socketio.redis_manager
+        mod.redis = fake
+        mod.time = types.SimpleNamespace(sleep=rec)
+        mod.logger = stubs.NULL_LOGGER
+        m = mod.RedisManager('redis://broker')
+    w = worlds.SWorld(asyncio_, client_manager=m, async_handlers=False)
+    w.eio.bg_inline = False
+    if asyncio_:
+        async def oc(sid, environ):
+            return None
+        w.eio.start_background_task = lambda target, *a, **kw: None
+    else:
+        def oc(sid, environ):
+            return None
+    w.s.on('connect', oc)
+    w.open('e0')
+    sid = w.connect('e0', '/')
+    w.take('e0')
+    return w, m, sid
+
+
+def new_state(plan):
+    return dict(plan=plan, pos=0, down=0, pubsubs=0, subscribes=0, listens=0, connects=0, sleeps=[], expect=[],
+                expect_sleeps=[], publish_attempts=0, publish_down=0, published=[])
+
+
+def h_redis(t, part):
+    asyncio_ = part['async']
+    if 'first' in part:
+        t.force([part['first']])
+    plan = []
+    for k in range(part['n']):
+        ev = R_EVENTS[t.choice(len(R_EVENTS))]
+        f = t.choice(part['maxf'] + 1) if ev == 'drop' else 0
+        plan.append((ev, f))
+    plan.append(('msg', 0))            # whatever happened, the next message must still be processed
+    with notrace():
+        st = new_state(plan)
+        w, m, sid = redis_world(asyncio_, st)
+        ended = None
+        try:
+            w.call(m._thread())
+            ended = 'returned'
+        except EndOfPlan:
+            ended = 'listening'
+        except Spin:
+            ended = 'spinning'
+        except BaseException as e:      # noqa
+            ended = e
+        got = [p.data[0] for p in w.take('e0') if not isinstance(p, tuple) and p.packet_type == packet.EVENT]
+        t.reached('redis')
+        t.note(plan)
+        if ended == 'spinning':
+            return Fail('redis:listener-spins', 'plan %r: listen() called %d times, %d subscribe calls, %d connections; delivered %r'
+                        % (plan, st['listens'], st['subscribes'], st['connects'], got))
+        if ended != 'listening':
+            return Fail('redis:listener-ended', 'plan %r: the listening loop ended (%r) after %d of %d broker events' % (
+                plan, ended, st['pos'], len(plan)))
+        if got != st['expect']:
+            return Fail('redis:messages', 'plan %r: expected %r in this order, the client received %r' % (plan, st['expect'], got))
+        if st['sleeps'] != st['expect_sleeps']:
+            return Fail('redis:back-off', 'plan %r: waits %r, expected %r (doubling from 1, capped at 60, reset by a successful '
+                        'reconnection)' % (plan, st['sleeps'], st['expect_sleeps']))
+    return None
+
+
+def h_redis_publish(t, part):
+    """publish(): one silent retry on a fresh connection, then give up quietly; a later message is not affected"""
+    asyncio_ = part['async']
+    fails = [t.choice(4), t.choice(4)]
+    with notrace():
+        st = new_state([])
+        w, m, sid = redis_world(asyncio_, st)
+        outcome = []
+        for j, f in enumerate(fails):
+            st['publish_down'] = f
+            a0, c0, p0 = st['publish_attempts'], st['connects'], len(st['published'])
+            try:
+                w.call(w.s.emit('ev-%d' % j, j, namespace='/'))
+            except Exception as e:
+                return Fail('redis:publish-raised:%s' % type(e).__name__, 'publishing with %d failing attempts: %r' % (f, e))
+            att, con, pub = st['publish_attempts'] - a0, st['connects'] - c0, len(st['published']) - p0
+            outcome.append((f, att, con, pub))
+            st['publish_down'] = 0
+            want = (1, 0, 1) if f == 0 else (2, 1, 1) if f == 1 else (2, 1, 0)
+            if (att, con, pub) != want:
+                return Fail('redis:publish-retry', 'message %d with %d failing attempts: %d attempts, %d reconnections, published '
+                            '%d times; expected %r (history %r)' % (j, f, att, con, pub, want, outcome))
+        t.reached('redis-publish')
+        names = [pickle.loads(d)['event'] for _, d in st['published']]
+        want = ['ev-%d' % j for j, f in enumerate(fails) if f < 2]
+        if names != want:
+            return Fail('redis:publish-content', 'published %r, expected %r' % (names, want))
+    return None
+
+
+def redis_parts(tier):
+    out = []
+    for a in (False, True):
+        if tier == 'quick':
+            out += [{'async': a, 'n': 2, 'maxf': 2, 'first': f} for f in range(len(R_EVENTS))]
+            out += [{'async': a, 'n': 1, 'maxf': 8, 'first': R_EVENTS.index('drop')}]
+        else:
+            out += [{'async': a, 'n': 3, 'maxf': 3, 'first': f} for f in range(len(R_EVENTS))]
+            out += [{'async': a, 'n': 2, 'maxf': 8, 'first': R_EVENTS.index('drop')}]
+    return out
+
+
+CHECKS = [dict(name='listener', fn=h, parts=parts, budget={'quick': 180, 'thorough': 900}, per_path_s=20),
+          dict(name='redis-listen', fn=h_redis, parts=redis_parts, budget={'quick': 60, 'thorough': 300}, per_path_s=20),
+          dict(name='redis-publish', fn=h_redis_publish, parts=lambda tier: [{'async': False}, {'async': True}],
+               budget={'quick': 30, 'thorough': 60}, per_path_s=20)]
 
 META = dict(
     explanation='The real PubSubManager._thread / AsyncPubSubManager._thread consumes a channel filled with tape-chosen '
@@ -268,12 +537,23 @@ META = dict(
                 'with faults (the application callback raises or is cancelled, a server operation raises, the backend\'s '
                 'listen iterator raises and is restarted); after every item a valid sentinel emit must be delivered '
                 'exactly once, echoes must not be re-applied and no foreign acknowledgement may complete a local callback. '
-                'Everything here is concrete once the solver has chosen the plan: the solver enumerates plans.',
-    bounds={'quick': 'one item (%d kinds x 4 encodings x 4 variants) + sentinel; two items when the first is a fault' % len(KINDS),
-            'thorough': 'two items + sentinels'},
-    outside=['the Redis/Kombu/ZMQ/Kafka backends\' own retry loops (client libraries not installed)', 'hostile pickles',
+                'Everything here is concrete once the solver has chosen the plan: the solver enumerates plans. '
+                'redis-listen / redis-publish: the real RedisManager / AsyncRedisManager (built on a fake of the redis client '
+                'library installed as the module global) run their real listening loop against a broker script of messages '
+                '(own channel, other channel, other type, without data), connection drops followed by f failing '
+                'reconnections, and a non-Redis error of the library; the loop must end blocked in listen() on a subscribed '
+                'connection, every message delivered while subscribed must reach the client once and in order, and the waits '
+                'must double from 1 s, stay capped at 60 s and restart at 1 s after a successful reconnection; publish() '
+                'retries once on a fresh connection, then gives up without raising and without affecting the next message.',
+    bounds={'quick': 'one item (%d kinds x 4 encodings x 4 variants) + sentinel; two items when the first is a fault; Redis: two '
+                     'broker events (6 kinds, up to 2 failing reconnections) + a final message, one drop with up to 8 failing '
+                     'reconnections; two publishes with 0-3 failing attempts each' % len(KINDS),
+            'thorough': 'two items + sentinels; Redis: three broker events, two drops with up to 8 failing reconnections'},
+    outside=['the Kombu/ZMQ/Kafka/aio_pika backends (their client libraries are not installed and are not faked)', 'the real redis-py: the fake follows its documented pub/sub behaviour', 'hostile pickles',
              'BaseExceptions other than asyncio.CancelledError raised by a callback'],
     stubs=['backend: _publish appends to a list, _listen is a (restartable) generator over the channel',
+           'redis / redis.asyncio -> in-process fake (from_url connects lazily; subscribe/publish raise ConnectionError while down; '
+           'listen() runs while subscribed; messages as redis-py dicts); time.sleep / asyncio.sleep in the Redis managers -> recorder',
            'engine.io server -> FakeEio/FakeAEio', 'JSON text of Socket.IO packets -> TokJson', 'asyncio -> vf.miniloop'],
-    assumptions=[],
+    assumptions=['redis-py pub/sub behaves as the fake does (listen() returns at once on a connection that never subscribed)'],
 )
